@@ -92,3 +92,27 @@ def true(sc, sysm):
 def c04_bad(sc, sysm):
   fs = [order_bad(sc, sysm), double_dispatch(sc, sysm), any_crash(sc, sysm)]
   return lambda B, st: B.or_(*[f(B, st) for f in fs])
+
+
+def singleton_bad(sc, sysm):
+  """two finished callers hold different objects, or a finished caller holds no object"""
+  n = sc.info["nthreads"]
+
+  def f(B, st):
+    xs = []
+    for a in range(n):
+      da = at_any(B, st, a, done_nodes(sysm, a))
+      xs.append(B.and_(da, B.or_(B.eq(st["res.%d" % a], B.const(0)), B.eq(st["res.%d" % a], B.const(ir.NONE)))))
+      for b in range(a + 1, n):
+        db = at_any(B, st, b, done_nodes(sysm, b))
+        xs.append(B.and_(da, db, B.not_(B.eq(st["res.%d" % a], st["res.%d" % b]))))
+    return B.or_(*xs)
+  return f
+
+
+def all_done(sc, sysm):
+  return lambda B, st: B.and_(*[at_any(B, st, p.tid, done_nodes(sysm, p.tid)) for p in sysm.programs])
+
+
+def someone_open(sc, sysm):
+  return lambda B, st: B.or_(*[B.not_(ended(sysm, B, st, p.tid)) for p in sysm.programs])
